@@ -2393,6 +2393,17 @@ def _parse_simple_lines(
             i += 1
             continue
 
+        if line.startswith("global ") and ctx.get("current_function") is not None:
+            # ``global name`` inside a helper: assignments to ``name`` must update
+            # the sketch-level variable instead of declaring a new local, even if
+            # the helper is defined before the variable's first assignment.
+            for global_name in line[len("global "):].split(","):
+                global_name = global_name.strip()
+                if global_name.isidentifier():
+                    ctx.setdefault("var_declared", set()).add(global_name)
+            i += 1
+            continue
+
         if line.startswith("return"):
             func_meta = ctx.get("current_function")
             if func_meta is None:
